@@ -460,8 +460,15 @@ func (c *Crew) RunMachines(ctx context.Context, msg interface{}) (map[string]*co
 	c.Logf("RunMachines routing to %#v", mids)
 
 	acc := make(map[string]*core.Walked, len(mids))
+	seen := make(map[string]bool, len(mids))
 
 	for _, mid := range mids {
+		if seen[mid] {
+			// A machine that is named more than once still
+			// sees the message only once.
+			continue
+		}
+		seen[mid] = true
 		if m, have := c.Machines[mid]; have {
 			walked, err := c.RunMachine(ctx, msg, m)
 			if err != nil {
